@@ -682,6 +682,11 @@ class Ctx(object):
     def output(self, name, value):
         self.outputs.append((name, value))
 
+    def note(self, key, value):
+        """Free-form remark that ends up in the evidence file (e.g. cross-engine results)."""
+        if not self.engine.dry:
+            self.engine.notes.setdefault(key, []).append(value)
+
     def event(self, name):
         self.events.append(name)
 
@@ -926,6 +931,9 @@ class ConcreteCtx(object):
     def event(self, name):
         self.events.append(name)
 
+    def note(self, key, value):
+        pass
+
     def cut(self, reason):
         raise PathCut(reason)
 
@@ -969,6 +977,7 @@ class Engine(object):
         self.samples = []
         self.reached = set()
         self.cut_reasons = {}
+        self.notes = {}
         self.uncaught = []
         self.validation_failures = []
         self.bfs = False
